@@ -405,6 +405,66 @@ pub fn run(ctx: &Ctx) -> ! {
     }
     rep.section("states-then-every-continuation", s);
 
+    // (vi) tricky texts: multi-octet characters at every alignment (whole and cut inside a character) in every text
+    // position; names that collide under a normalisation side by side; look-alikes of the specially treated names
+    let mut tricky: Vec<(String, Vec<u8>)> = tricky_text_wire(&MULTIBYTE_LENS);
+    let mut twins = name_twins();
+    twins.push((b"".to_vec(), b"a".to_vec()));
+    for (i, (a, b)) in twins.into_iter().enumerate() {
+        for placement in 0..3 {
+            if placement < 2 && a.is_empty() {
+                continue;
+            }
+            let pair = vec![
+                Attr { name: a.clone(), values: vec![Val::Int(1)] },
+                Attr { name: b.clone(), values: vec![Val::Int(2), Val::Str(T_KEYWORD, b"k".to_vec())] },
+            ];
+            let mut m = Msg::new(0x0200, 0, 9);
+            match placement {
+                0 => m.groups.push(Group { tag: TAG_OPERATION, attrs: pair }),
+                1 => {
+                    m.groups.push(Group { tag: TAG_OPERATION, attrs: vec![] });
+                    m.groups.push(Group { tag: TAG_PRINTER, attrs: pair });
+                }
+                _ => m.groups.push(Group {
+                    tag: TAG_OPERATION,
+                    attrs: vec![Attr { name: b"c".to_vec(), values: vec![Val::Coll(pair.iter().map(|x| (x.name.clone(), x.values.clone())).collect())] }],
+                }),
+            }
+            tricky.push((format!("twins[{},{}]", i, placement), r1::encode(&m)));
+        }
+    }
+    for (i, (k, look)) in special_name_lookalikes().into_iter().enumerate() {
+        for with_exact in [false, true] {
+            let mut attrs = vec![Attr { name: look.clone(), values: vec![Val::Int(5)] }];
+            if with_exact {
+                attrs.push(Attr { name: SPECIAL_NAMES[k].as_bytes().to_vec(), values: vec![Val::Int(6)] });
+            }
+            let mut m = Msg::new(0x0101, 0x0008, 9);
+            m.groups.push(Group { tag: TAG_OPERATION, attrs });
+            tricky.push((format!("lookalike[{},{}]", i, with_exact), r1::encode(&m)));
+        }
+    }
+    let parts = vmc::explore::par_slice(ctx.threads, &tricky, Stats::new, |st, _, (name, bytes)| {
+        st.evaluations += 1;
+        match r1::decode(bytes) {
+            Ok(m) => {
+                st.transitions += 1;
+                check_accepted(bytes, &m, st, name);
+                st.sample(1, || json!({"input": name, "bytes": bytes.len()}));
+            }
+            Err(e) => {
+                eprintln!("MACHINERY-ERROR the reference decoder rejects its own tricky message {}: {:?}", name, e);
+                std::process::exit(2);
+            }
+        }
+    });
+    let mut s = Stats::new();
+    for p in parts {
+        s.merge(p);
+    }
+    rep.section("tricky-texts-and-names", s);
+
     // (iii) rejection rule
     let mut reject: Vec<u8> = vec![0x00];
     reject.extend(0x0b..=0x0f);
